@@ -111,7 +111,8 @@ fn gen_case(rng: &mut Rng, out: &mut Out, tier: &str) {
         (0..nex)
             .map(|_| match rng.below(100) {
                 0..=54 => 'H',
-                55..=79 => 'C',
+                55..=69 => 'C',
+                70..=84 => 'U',
                 _ => 'M',
             })
             .collect()
